@@ -154,7 +154,7 @@ pub struct PublicCase {
     pub depth: u8,
 }
 
-fn transcript_public(pos: &Pos, seed: u64, depth: usize) -> Result<Vec<String>, String> {
+pub fn transcript_public(pos: &Pos, seed: u64, depth: usize) -> Result<Vec<String>, String> {
     let state = glue::state_direct(pos);
     let (handle, tx, rx) = Searcher::new().analyze(state, seed, Evaluator::default(), Some(depth), None);
     let mut t = vec![];
